@@ -25,7 +25,7 @@ DEADLINE = {"quick": 60, "thorough": 600}
 
 
 def REQUIRED(tier):
-    req = {"rotate:root": 20, "rotate:via-associative-rule": 5, "rotate:histories": 100, "rotate:rule-sequences": 20}
+    req = {"rotate:root": 20, "rotate:via-associative-rule": 5, "rotate:histories": 100, "rotate:rule-sequences": 20, "rotate:local-histories": 1000}
     for side in ("left", "right"):
         for g in ("no-grandparent", "under-L", "under-R"):
             for inner in ("inner", "no-inner"):
@@ -111,6 +111,31 @@ def run(rec, cfg):
         kn = rng.choice(["raw", "expr"])
         H.mutation_history(rec, rng, fac14[kn], kn, steps=rng.randint(6, 20))
         rec.arm("rotate:histories")
+    # local histories: rotations and child swaps concentrated on one node and its neighbours
+    def swap(n):
+        l, r = n.left, n.right
+        n.set_left(r)
+        n.set_right(l)
+
+    small = [sh for k in range(3, 8) for sh in W9.shapes(k)]
+    for i in range(cfg.scale(4000, 60000)):
+        if i % 256 == 0 and cfg.out_of_time():
+            rec.truncated = True
+            break
+        t = W9.build(rng.choice(small), fac["raw"])
+        nodes = S.nodes_preorder(t)
+        y = rng.choice(nodes)
+        for _ in range(rng.randint(3, 9)):
+            around = [n for n in (y, y.parent, y.left, y.right, y.parent.parent if y.parent is not None else None) if n is not None]
+            n = rng.choice(around)
+            try:
+                if rng.random() < 0.6:
+                    n.rotate()
+                else:
+                    swap(n)
+            except Exception:
+                break  # only possible once an earlier step has corrupted the links (already reported)
+        rec.arm("rotate:local-histories")
     # in-place sequences of the associative and commutative rules on one expression tree
     from mathy_core.parser import ExpressionParser as _P
     from ..monitors import rules as MR
